@@ -168,14 +168,24 @@ StepReapN(e) ==
                               ELSE IF ~Unique(st) THEN "reap_of_pool_with_duplicates" ELSE "ReapMaxTxs_other"]),
             FailIf(e.result # ReapN(cfg, st, e.n), [l |-> l, what |-> "ReapMaxTxs result differs from spec"]))
 
+RECURSIVE EncodedSizeUpTo(_, _)
+EncodedSizeUpTo(txs, k) == IF k = 0 THEN 0 ELSE ProtoSize(cfg.txsize[txs[k]]) + EncodedSizeUpTo(txs, k - 1)
+EncodedSize(txs) == EncodedSizeUpTo(txs, Len(txs))
+
 StepReapBG(e) ==
   LET r == [st |-> st, res |-> "ok"]
       n == Obs(e.post, st)
   IN Commit(e, st, r, n,
-            FailIf(~ReapPrefixBG(cfg, st.pool, e.b, e.g, e.result),
+            \* e.enc: the size of the result as the generated protobuf code of tmproto.Data encodes it --
+            \* an oracle for "respects the byte limit" that shares nothing with the mempool's accounting
+            FailIf(~ReapPrefixBG(cfg, st.pool, e.b, e.g, e.result) \/ (e.b >= 0 /\ e.enc > e.b),
                    [l |-> l, inv |-> "ReapPrefix",
-                    class |-> IF ~Unique(st) THEN "reap_of_pool_with_duplicates" ELSE "ReapMaxBytesMaxGas"]),
-            FailIf(e.result # ReapBG(cfg, st, e.b, e.g), [l |-> l, what |-> "ReapMaxBytesMaxGas result differs from spec"]))
+                    class |-> IF ~Unique(st) THEN "reap_of_pool_with_duplicates"
+                              ELSE IF e.b >= 0 /\ e.enc > e.b THEN "encoded_size_exceeds_maxBytes"
+                              ELSE "ReapMaxBytesMaxGas"]),
+            FailIf(e.result # ReapBG(cfg, st, e.b, e.g), [l |-> l, what |-> "ReapMaxBytesMaxGas result differs from spec"])
+            \cup FailIf(e.enc # EncodedSize(e.result),
+                        [l |-> l, what |-> "marshalled size of the result differs from the spec's tag+varint+len rule"]))
 
 \* concurrent driver: only the state at a quiescent point is known (level 2 only); the
 \* ghosts are re-synchronised from the observation.  e.judge: the cache never evicted
